@@ -32,7 +32,7 @@ RULE = ('directed corpus (docstring examples, one message per rendering, D4/K12 
         '(per-rendering alphabet, length 1..40), surrounding class (rotating over 13) and mask per cell and round '
         '+ messages with 2..4 secrets + key-free messages (four alphabets that cannot spell a key, near-miss key '
         'spellings in every rendering). every message is non-trivial; distinct by (message, mask)')
-REQUIRED_CLAUSES = ['a-exact-output', 'b-no-leak', 'c-idempotent', 'd-identity-without-key']
+REQUIRED_CLAUSES = ['b-no-leak (dash-leading secret)', 'a-exact-output', 'b-no-leak', 'c-idempotent', 'd-identity-without-key']
 ASSUMPTIONS = [
     'expected output is composed from the generator components; the 35 keys are the list in the property '
     '(copied here, not imported from the code under test)',
@@ -193,6 +193,21 @@ def evaluate(ctx, case):
         ctx.clause('d-identity-without-key')
         if got != text:
             ctx.fail('d-identity-without-key', case, {'message': text, 'got': got})
+        return
+
+    if kind == 'leak-only':
+        message = compose(case)
+        ctx.case(('leak-only', message, mask))
+        got, exc = _call(strutils, message, mask)
+        if exc is not None or not isinstance(got, str):
+            ctx.fail('must-not-raise', case, {'message': message, 'exc': exc})
+            return
+        for p in case['parts']:
+            if p['secret'] in compose(case, mask_text):
+                continue
+            ctx.clause('b-no-leak (dash-leading secret)')
+            if p['secret'] in got:
+                ctx.fail('b-no-leak', case, {'message': message, 'got': got, 'leaked': p['secret']})
         return
 
     if kind == 'observe':
@@ -468,6 +483,34 @@ SEPS = [' ', ' ', ', ', '; ', '\n', ' and ', ' | ', ' (', ', [', ' {', '\t']
 SEPS_Q = [' "x" ', " 'y', ", ' it\'s ', ', "n": "v", ']
 
 
+def many_same_case(rng, mask):
+    """19..40 secrets under ONE key in ONE rendering in one message (every one of them must be masked)."""
+    key = rng.choice(KEYS)
+    rname = rng.choice([r for r in RNAMES if r not in ('json_dq', 'dict_sq', 'dict_u', 'json_mixed', 'list_kfv')])
+    cls = RENDERINGS[rname][0]
+    n = rng.choice([19, 20, 25, 40])
+    parts = []
+    for i in range(n):
+        p = make_part(rng, key, rng.choice(['lower', 'digits', 'lower', 'UPPER']), rname)
+        p['after'] = fit_after(cls, rng.choice([' ', '\n', ' ; ', ' and ']) if i < n - 1 else '')
+        parts.append(p)
+    case = {'kind': 'mask', 'pre': rng.choice(['', 'batch: ', 'rows:\n']), 'parts': parts, 'mask': mask,
+            'sur': 'many-secrets-one-key-one-rendering'}
+    return case if neutral_ok(case) else None
+
+
+def dash_secret_case(rng, mask):
+    """--key value whose value starts with a dash: which neighbouring token gets masked as well is not pinned
+    (it looks like the key-flag-value form), but the secret itself must never survive."""
+    key = rng.choice(KEYS)
+    secret = '-' + gen_secret(rng, 'ddash').lstrip('-')
+    p = make_part(rng, key, rng.choice(GRID_VARIANTS), 'ddash', secret=secret)
+    p['after'] = rng.choice(['', ' ', ' tail', '\n'])
+    case = {'kind': 'leak-only', 'pre': rng.choice(['', 'cmd ', 'run: ']), 'parts': [p], 'mask': mask,
+            'sur': 'dash-leading secret'}
+    return case if (neutral_ok(case) and len(secret) > 1) else None
+
+
 def multi_case(rng, mask):
     n = rng.choice([2, 2, 2, 3, 3, 4])
     for _ in range(20):
@@ -686,6 +729,14 @@ def run(ctx):
             if b == 0 and i == 0:
                 ctx.sample('several secrets', case)
             evaluate(ctx, case)
+        for i in range(60):
+            case = many_same_case(rng, rng.choice(MASKS))
+            if case:
+                evaluate(ctx, case)
+        for i in range(150):
+            case = dash_secret_case(rng, rng.choice(MASKS))
+            if case:
+                evaluate(ctx, case)
 
     # ---- (d) key-free messages
     for b in range(ctx.pick(10, 300)):
